@@ -1,6 +1,7 @@
 package rules
 
 import (
+	"go/constant"
 	"go/token"
 	"go/types"
 	"sort"
@@ -22,6 +23,7 @@ func init() {
 			"Agent.signal escalates with the constant SIGKILL, allowOverride=false, on a timer derived from MaxCleanUpTime; /stop uses (SIGTERM, true); OS signals (sig,false); the first fan-out is sent under no condition on the run's state, so a stop arriving between two steps still sets the cancel flag (C05.agent-escalation)",
 			"the Kill of every process executor (executor holding an *exec.Cmd) returns nil only after the signal was sent, to the group -cmd.Process.Pid, helpers followed (C05.kill-delivers); those executors are created with Setpgid:true (C05.pgroup)",
 			"the context handed to exec derives from context.WithTimeout(ctx, sc.timeout) under timeout>0 and process executors use exec.CommandContext on it (C05.timeout-ctx)",
+			"a running node is marked canceled by the stop whether or not its process exists (C05.cancel-mark); nobody replaces exec.Cmd.Cancel without a positive WaitDelay (C05.timeout-ctx)",
 			"cancel and exit handlers are selected (C04.handler-table shared)",
 		},
 		NotDec: []string{
@@ -42,6 +44,7 @@ func runC05(e *Env) {
 	c05NoLaunchAfterCancel(e, s)
 	c05SignalFanout(e, s)
 	c05SignalTable(e, s)
+	c05CancelMark(e, s, "C05.cancel-mark")
 	c05AgentEscalation(e, s)
 	c05Pgroup(e, s)
 	c05TimeoutCtx(e, s)
@@ -468,7 +471,11 @@ func c05AgentEscalation(e *Env, s *Sched) {
 		r.Unknown("the agent's escalation routine", agentRel, "no function of the agent package waits in a select and signals the scheduler")
 		return
 	}
+	// the requested signal and the override flag: two parameters, or two fields of one
+	// small struct parameter (`signalRequest{sig, stepOverride}`)
 	var sigParam, overrideParam ssa.Value
+	var reqParam *ssa.Parameter
+	sigField, ovField := -1, -1
 	for _, p := range fn.Params {
 		switch {
 		case ir.NamedType(p.Type()) == "os.Signal":
@@ -478,8 +485,60 @@ func c05AgentEscalation(e *Env, s *Sched) {
 		}
 	}
 	if sigParam == nil || overrideParam == nil {
+		for _, p := range fn.Params {
+			st, isS := derefT(p.Type()).Underlying().(*types.Struct)
+			if !isS {
+				continue
+			}
+			sf, of := -1, -1
+			for k := 0; k < st.NumFields(); k++ {
+				switch {
+				case ir.NamedType(st.Field(k).Type()) == "os.Signal":
+					sf = k
+				case st.Field(k).Type().String() == "bool":
+					of = k
+				}
+			}
+			if sf >= 0 && of >= 0 {
+				reqParam, sigField, ovField = p, sf, of
+			}
+		}
+	}
+	if (sigParam == nil || overrideParam == nil) && reqParam == nil {
 		r.Unknown("the agent's escalation routine: (signal, allowOverride) parameters", e.Pos(fn.Pos()), "not found")
 		return
+	}
+	fieldOfReq := func(v ssa.Value, fi int) bool {
+		if reqParam == nil {
+			return false
+		}
+		v = ir.Resolve(v)
+		switch x := v.(type) {
+		case *ssa.Field:
+			return x.Field == fi && ir.Resolve(x.X) == ssa.Value(reqParam)
+		case *ssa.UnOp:
+			if fa, ok := x.X.(*ssa.FieldAddr); ok && fa.Field == fi {
+				b := ir.Resolve(fa.X)
+				if b == ssa.Value(reqParam) {
+					return true
+				}
+				// the parameter spilled into a local
+				if al, isA := fa.X.(*ssa.Alloc); isA {
+					for _, sv := range ir.StoresTo(al) {
+						if ir.Resolve(sv) == ssa.Value(reqParam) {
+							return true
+						}
+					}
+				}
+			}
+		}
+		return false
+	}
+	isSigV := func(v ssa.Value) bool {
+		return (sigParam != nil && SameValue(v, sigParam)) || fieldOfReq(ir.Deep(v), sigField) || fieldOfReq(v, sigField)
+	}
+	isOvV := func(v ssa.Value) bool {
+		return (overrideParam != nil && SameValue(v, overrideParam)) || fieldOfReq(ir.Deep(v), ovField) || fieldOfReq(v, ovField)
 	}
 	// select and its timer case
 	var sel *ssa.Select
@@ -544,12 +603,51 @@ func c05AgentEscalation(e *Env, s *Sched) {
 		}
 		return false
 	}
+	// the sends: calls of Scheduler.Signal in the routine, and calls of a helper of the
+	// package that only forwards to it (`a.resendSignal(sig)`), its parameters replaced
+	// by the call's arguments
+	type send struct {
+		ci   ssa.CallInstruction
+		args []ssa.Value // sc, g, sig, done, allowOverride
+	}
+	var sends []send
+	isPart := map[*ssa.Function]bool{}
 	for _, f := range parts {
-		for _, ci := range ir.CallsIn(f, func(c *ssa.CallCommon) bool { return c.StaticCallee() == schedSignal }) {
-			args := ci.Common().Args // sc, g, sig, done, allowOverride
-			if len(args) != 5 {
+		isPart[f] = true
+	}
+	for _, f := range parts {
+		for _, ci := range ir.CallsIn(f, func(c *ssa.CallCommon) bool { return c.StaticCallee() != nil }) {
+			h := ci.Common().StaticCallee()
+			if h == schedSignal {
+				if len(ci.Common().Args) == 5 {
+					sends = append(sends, send{ci, ci.Common().Args})
+				}
 				continue
 			}
+			if isPart[h] || !e.P.Funcs[h] || !ar.inPkg(h) || len(h.Blocks) != 1 {
+				continue
+			}
+			for _, inner := range ir.CallsIn(h, func(c *ssa.CallCommon) bool { return c.StaticCallee() == schedSignal }) {
+				ia := inner.Common().Args
+				if len(ia) != 5 {
+					continue
+				}
+				sub := make([]ssa.Value, 5)
+				for k, a := range ia {
+					sub[k] = a
+					for pi, hp := range h.Params {
+						if ir.Resolve(a) == ssa.Value(hp) && pi < len(ci.Common().Args) {
+							sub[k] = ci.Common().Args[pi]
+						}
+					}
+				}
+				sends = append(sends, send{ci, sub})
+			}
+		}
+	}
+	for _, sd := range sends {
+		{
+			ci, args, f := sd.ci, sd.args, sd.ci.Parent()
 			lits := e.DCS(ci)
 			async := inGoClosure(f)
 			if _, isGo := ci.(*ssa.Go); isGo {
@@ -564,11 +662,11 @@ func c05AgentEscalation(e *Env, s *Sched) {
 					sprintf("after MaxCleanUpTime the agent does not force-kill: signal const=%d allowOverride=%s", sigConst, e.C.Render(args[4])))
 			} else if !async {
 				// re-send: same signal, no override
-				r.Check(SameValue(args[2], sigParam) && allowIsConst && !allow, "Agent.signal: periodic re-send of the requested signal without override", e.InstrPos(ci),
+				r.Check(isSigV(args[2]) && allowIsConst && !allow, "Agent.signal: periodic re-send of the requested signal without override", e.InstrPos(ci),
 					"the periodic re-send does not forward the requested signal (or allows override)")
 			} else {
 				// first send in the goroutine: requested signal and allowOverride parameter
-				r.Check(SameValue(args[2], sigParam) && SameValue(args[4], overrideParam) && !ir.IsNilConst(ir.Deep(args[3])), "Agent.signal: first send forwards (sig, allowOverride) and waits via done", e.InstrPos(ci),
+				r.Check(isSigV(args[2]) && isOvV(args[4]) && !ir.IsNilConst(ir.Deep(args[3])), "Agent.signal: first send forwards (sig, allowOverride) and waits via done", e.InstrPos(ci),
 					"the first fan-out does not forward the requested signal / override flag or does not wait for the graph to stop")
 				// and it is sent whatever the run looks like at that instant: from the routine's
 				// entry to the send no condition other than a nil test. "No step is running"
@@ -638,17 +736,64 @@ func c05AgentEscalation(e *Env, s *Sched) {
 		host := ShortFn(rootFn(ci.Parent()))
 		var sigArg, ovArg ssa.Value
 		for i, p := range fn.Params {
-			if ssa.Value(p) == sigParam {
+			if sigParam != nil && ssa.Value(p) == sigParam {
 				sigArg = args[i]
 			}
-			if ssa.Value(p) == overrideParam {
+			if overrideParam != nil && ssa.Value(p) == overrideParam {
 				ovArg = args[i]
 			}
+			if reqParam != nil && p == reqParam {
+				// the request literal built for this call: what it stores into the two fields
+				// (a field the literal does not mention is the zero value)
+				var al *ssa.Alloc
+				switch x := ir.Resolve(args[i]).(type) {
+				case *ssa.UnOp:
+					al, _ = x.X.(*ssa.Alloc)
+				case *ssa.Alloc:
+					al = x
+				}
+				if al != nil {
+					ovArg = ssa.NewConst(constant.MakeBool(false), types.Typ[types.Bool])
+					for _, ref := range *al.Referrers() {
+						if fa, ok := ref.(*ssa.FieldAddr); ok {
+							for _, r2 := range *fa.Referrers() {
+								if sv, ok := r2.(*ssa.Store); ok && sv.Addr == ssa.Value(fa) {
+									if fa.Field == sigField {
+										sigArg = sv.Val
+									}
+									if fa.Field == ovField {
+										ovArg = sv.Val
+									}
+								}
+							}
+						}
+					}
+				}
+			}
+		}
+		if sigArg == nil || ovArg == nil {
+			r.Unknown(host+": the (signal, allowOverride) the escalation routine is called with", e.InstrPos(ci), "arguments not identified")
+			continue
 		}
 		sc := signalConst(sigArg)
 		allow, isC := ir.ConstBool(ovArg)
+		// an HTTP handler: HandleHTTP and what it is made of, or any function that is handed
+		// the response writer / the request (a route's handler method)
+		isHTTP := strings.HasSuffix(host, ".HandleHTTP") || httpSet[ci.Parent()]
+		for cur, d := rootFn(ci.Parent()), 0; cur != nil && d < 4; d++ {
+			for _, p := range cur.Params {
+				if n := ir.NamedType(p.Type()); n == "net/http.ResponseWriter" || n == "net/http.Request" {
+					isHTTP = true
+				}
+			}
+			us := ir.UniqueSite(cur) // also a go statement: `go a.handleStopRequest()`
+			if us == nil {
+				break
+			}
+			cur = rootFn(us.Parent())
+		}
 		switch {
-		case strings.HasSuffix(host, ".HandleHTTP") || httpSet[ci.Parent()]:
+		case isHTTP:
 			r.Check(sc == 15 && isC && allow, "HandleHTTP /stop: signal(SIGTERM, allowOverride=true)", e.InstrPos(ci),
 				"the stop request does not send SIGTERM with the step's signalOnStop override allowed")
 		default:
@@ -1145,4 +1290,125 @@ func c05TimeoutCtx(e *Env, s *Sched) {
 				"the child process is not bound to the step's context: a timeout / cancel would not terminate it")
 		}
 	}
+	// what ends the child when that context is done is os/exec's own kill: nobody in the
+	// repository replaces exec.Cmd.Cancel (a replacement that only asks - SIGTERM, a
+	// signal to the group - is never followed by a forced kill unless WaitDelay is set)
+	nCancel := 0
+	for _, g := range e.RepoFuncsSorted() {
+		for _, b := range g.Blocks {
+			for _, in := range b.Instrs {
+				st, ok := in.(*ssa.Store)
+				if !ok {
+					continue
+				}
+				fa, ok := st.Addr.(*ssa.FieldAddr)
+				if !ok || ir.NamedType(fa.X.Type()) != "os/exec.Cmd" || ir.FieldNameOf(fa.X.Type(), fa.Field) != "Cancel" {
+					continue
+				}
+				nCancel++
+				// accepted only together with a positive constant WaitDelay on the same command
+				okDelay := false
+				for _, b2 := range g.Blocks {
+					for _, in2 := range b2.Instrs {
+						if s2, isS := in2.(*ssa.Store); isS {
+							if f2, isF := s2.Addr.(*ssa.FieldAddr); isF && ir.Resolve(f2.X) == ir.Resolve(fa.X) && ir.FieldNameOf(f2.X.Type(), f2.Field) == "WaitDelay" {
+								if k, isK := ir.ConstInt(s2.Val); isK && k > 0 {
+									okDelay = true
+								}
+							}
+						}
+					}
+				}
+				r.Check(okDelay, ShortFn(rootFn(g))+": exec.Cmd.Cancel is replaced only together with a positive WaitDelay", e.InstrPos(st),
+					"the action os/exec takes when the step's context ends (timeout, cancel) is replaced and no WaitDelay is set: os/exec then never force-kills, and a step that ignores the replacement's signal outlives the run's timeout indefinitely")
+			}
+		}
+	}
+	if nCancel == 0 {
+		r.OK("process executors: os/exec's kill-on-context-end is not replaced (no store to exec.Cmd.Cancel)", "-", "")
+	}
+}
+
+// c05CancelMark: a node that is running when a stop reaches it is marked canceled,
+// whether or not its process exists yet. In the node's signal routine every path
+// that is consistent with `status == running` at entry passes a store of `canceled`
+// into the node's status before it returns. (A step that was launched but whose
+// command has not been created keeps `running` otherwise; its worker, seeing the
+// cancel flag, skips the execution and promotes the still-running node to finished:
+// a stopped run is reported finished and onSuccess runs instead of onCancel.)
+func c05CancelMark(e *Env, s *Sched, rule string) {
+	r := e.R
+	r.Rule(rule, "MPT", "Node.signal: a running node is marked canceled on every path", 1)
+	fn := e.FnQuiet(schedRel, "(*Node).signal")
+	if fn == nil {
+		r.Unknown("Node.signal", schedRel, "not found")
+		return
+	}
+	recv := fn.Params[0]
+	running, cancel := s.val("NodeStatusRunning"), s.val("NodeStatusCancel")
+	isStatus := s.isStatusOf(recv)
+	var marks []ssa.Instruction
+	for _, g := range sortedFns(e.inlinedSet(fn, nil)) {
+		for _, ev := range s.statusEvents(g) {
+			if k, ok := s.constOf(ev); ok && k == cancel {
+				marks = append(marks, ev.Site)
+			}
+		}
+	}
+	isMark := func(in ssa.Instruction) bool {
+		for _, m := range marks {
+			if m == in {
+				return true
+			}
+		}
+		return false
+	}
+	// an edge that cannot be taken by a node that is running
+	notRunning := func(from *ssa.BasicBlock, idx int) bool {
+		i, ok := from.Instrs[len(from.Instrs)-1].(*ssa.If)
+		if !ok {
+			return false
+		}
+		alts := e.Facts(from.Parent()).Alternatives(ir.Lit{Cond: i.Cond, Pol: idx == 0, If: i})
+		if len(alts) == 0 {
+			return false
+		}
+		for _, a := range alts {
+			l := ir.Normalize(a)
+			if l.Kind != "cmp" || !isStatus(l.X) {
+				return false
+			}
+			k, isK := ir.ConstInt(l.Y)
+			if !isK {
+				return false
+			}
+			switch l.Op {
+			case token.EQL:
+				if k == running {
+					return false
+				}
+			case token.NEQ:
+				if k != running {
+					return false
+				}
+			default:
+				return false
+			}
+		}
+		return true
+	}
+	bad, _ := ir.Bypass(nil, fn.Blocks[0], ir.PathQuery{
+		Stop:     isMark,
+		Bad:      ir.IsReturn,
+		SkipEdge: notRunning,
+		Descend: func(g *ssa.Function) bool {
+			return e.P.Funcs[g] && ir.UniqueSite(g) != nil && rootFn(g).Package() == rootFn(fn).Package()
+		},
+	})
+	var facts []string
+	if bad != nil {
+		facts = append(facts, "a return reached without the mark at "+e.InstrPos(bad))
+	}
+	r.Check(bad == nil && len(marks) > 0, "Node.signal: a node that is running is marked canceled on every path", e.Pos(fn.Pos()),
+		"a stop can leave a running node in state running (e.g. when its process has not been created yet): the worker then skips the execution because of the cancel flag and labels the node finished - the stopped run is reported finished, onSuccess runs, onCancel does not", facts...)
 }
